@@ -120,6 +120,20 @@ impl Frame {
         Ok(frame)
     }
 
+    // Returns error if the frame can not be represented in serialized form:
+    // host name and port must fit the u8 attribute length, body the u16 length.
+    pub fn check_encodable(&self) -> IoResult<()> {
+        if let Some(TargetAddress::DomainPort(host, _)) = &self.addr {
+            if host.len() + 2 > 255 {
+                return Err(IoError::new(ErrorKind::InvalidInput, "host name too long"));
+            }
+        }
+        if self.body.len() > 65535 {
+            return Err(IoError::new(ErrorKind::InvalidInput, "body too long"));
+        }
+        Ok(())
+    }
+
     pub fn make_header(&self) -> BytesMut {
         let mut buf = BytesMut::with_capacity(1024);
         let mut addr = buf.split_off(12);
@@ -139,6 +153,7 @@ impl Frame {
 
     // Write head and body to output stream
     pub async fn write_to<T: AsyncWrite + Unpin>(&self, output: &mut T) -> IoResult<usize> {
+        self.check_encodable()?;
         let head = self.make_header();
         output.write_all(&head).await?;
         output.write_all(&self.body).await?;
